@@ -228,7 +228,9 @@ def run_case(case, ctx):
     want_u = float(np.mean([kl_ref(Pt[b], Pm[b]) for b in blist_u]))
     exl = {"path": "bases_list", "with_bases": True, "bases": blist}
     try:
-        kl_check("KL(bases=list)", ctx.lib("KL", ts.KL, st, tt, space=sp, bases=blist, tags=dict(tags, metric="KL", path="bases_list", with_bases=True)),
+        bform = [blist, tuple(blist), np.array(blist)][case["rep"] % 3]
+        ctx.seen("bases_argument_forms", type(bform).__name__)
+        kl_check("KL(bases=list)", ctx.lib("KL", ts.KL, st, tt, space=sp, bases=bform, tags=dict(tags, metric="KL", path="bases_list", with_bases=True)),
                  want_list, exl)
         ctx.count("kl_dict_target_calls")
         kl_check("KL(dict target)", ctx.lib("KL", ts.KL, st, tdict, space=sp, tags=dict(tags, metric="KL", path="dict", with_bases=True)),
